@@ -1,6 +1,7 @@
 """
 C19  Client requests are sent one at a time and answered in FIFO order.
 """
+from ..core import CaseTimeout as _CaseTimeout
 import re
 from .. import netlab, rawpeer, tls as tlsmod
 from ..core import Result, digest
@@ -171,6 +172,8 @@ def run_case(tape, tier):
             net.current_owner = "client0"
             try:
                 client.service()
+            except _CaseTimeout:
+                raise
             except BaseException as ex:
                 raised.append((type(ex).__name__, str(ex)[:150]))
                 net.current_owner = None
